@@ -430,6 +430,29 @@ Ltac norm_existsb :=
   repeat first [ rewrite existsb_app_true | rewrite existsb_cons_true
                | rewrite existsb_nil_true | rewrite use_matches_same ].
 
+Lemma any_read_mentions : forall ds e v acc,
+  any_read ds v acc e = true <-> expr_mentions ds e v acc.
+Proof. intros. unfold any_read. apply (existsb_reads_mentions ds e v acc). Qed.
+
+Lemma existsb_idx_mentions : forall ds v acc target,
+  existsb (fun a => match a with AIdx x => any_read ds v acc x | AComp _ => false end) target = true
+  <-> exists x, In (AIdx x) target /\ expr_mentions ds x v acc.
+Proof.
+  intros ds v acc target. rewrite existsb_exists. split.
+  - intros [a [Hin Ha]]. destruct a as [x|n]; [|discriminate].
+    exists x. split; [assumption | now apply any_read_mentions].
+  - intros [x [Hin Hm]]. exists (AIdx x). split; [assumption | now apply any_read_mentions].
+Qed.
+
+Lemma update_mentions_b_spec : forall ds v acc var target rhe,
+  use_matches v acc (var, target) || any_read ds v acc rhe
+  || existsb (fun a => match a with AIdx x => any_read ds v acc x | AComp _ => false end) target = true
+  <-> update_mentions ds var target rhe v acc.
+Proof.
+  intros. unfold update_mentions.
+  rewrite !orb_true_iff, use_matches_same, any_read_mentions, existsb_idx_mentions. tauto.
+Qed.
+
 Lemma stmt_mentions_b_spec : forall ds v acc s,
   stmt_mentions_b ds v acc s = true <-> stmt_mentions ds s v acc.
 Proof.
@@ -437,30 +460,44 @@ Proof.
   destruct s as [| | |m w op rhe sv st|m l r| |]; simpl; try (split; [discriminate | tauto]).
   - destruct op; simpl; try (split; [discriminate | tauto]).
     unfold constraint_mentions; simpl.
-    pose proof (existsb_reads_mentions ds rhe v acc) as HR. unfold all_reads in HR.
-    rewrite existsb_app_true in HR.
-    unfold subst_uses.
-    destruct st as [t|].
-    + destruct (is_signal t) eqn:Es; [|destruct (is_comp t) eqn:Ec]; simpl.
-      * assert (EX : exists t0, Some t = Some t0 /\ (is_signal t0 = true \/ is_comp t0 = true))
-          by (exists t; auto).
-        norm_existsb. tauto.
-      * assert (EX : exists t0, Some t = Some t0 /\ (is_signal t0 = true \/ is_comp t0 = true))
-          by (exists t; auto).
-        norm_existsb. tauto.
-      * assert (NEX : ~ exists t0, Some t = Some t0 /\ (is_signal t0 = true \/ is_comp t0 = true))
-          by (intros [t0 [E [H|H]]]; injection E as <-; congruence).
-        norm_existsb. tauto.
-    + simpl.
-      assert (NEX : ~ exists t0 : vtype, None = Some t0 /\ (is_signal t0 = true \/ is_comp t0 = true))
-        by (intros [t0 [E _]]; discriminate).
-      norm_existsb. tauto.
+    assert (G : existsb (use_matches v acc)
+                  (u_sigread (subst_uses ds w OpCSig rhe st) ++ u_compread (subst_uses ds w OpCSig rhe st))
+                || any_read ds v acc rhe
+                || existsb (use_matches v acc) (u_compwritten (subst_uses ds w OpCSig rhe st)) = true
+                <-> expr_mentions ds rhe v acc \/
+                    ((exists t, st = Some t /\ (is_signal t = true \/ is_comp t = true))
+                     /\ same_use v acc w (subst_access rhe))).
+    { pose proof (existsb_reads_mentions ds rhe v acc) as HR. unfold all_reads in HR.
+      rewrite existsb_app_true in HR.
+      rewrite !orb_true_iff, any_read_mentions.
+      unfold subst_uses.
+      destruct st as [t|].
+      + destruct (is_signal t) eqn:Es; [|destruct (is_comp t) eqn:Ec]; cbn [u_sigread u_compread u_compwritten].
+        * assert (EX : exists t0, Some t = Some t0 /\ (is_signal t0 = true \/ is_comp t0 = true))
+            by (exists t; auto).
+          norm_existsb. tauto.
+        * assert (EX : exists t0, Some t = Some t0 /\ (is_signal t0 = true \/ is_comp t0 = true))
+            by (exists t; auto).
+          norm_existsb. tauto.
+        * assert (NEX : ~ exists t0, Some t = Some t0 /\ (is_signal t0 = true \/ is_comp t0 = true))
+            by (intros [t0 [E [H|H]]]; injection E as <-; congruence).
+          norm_existsb. tauto.
+      + cbn [u_sigread u_compread u_compwritten].
+        assert (NEX : ~ exists t0 : vtype, None = Some t0 /\ (is_signal t0 = true \/ is_comp t0 = true))
+          by (intros [t0 [E _]]; discriminate).
+        norm_existsb. tauto. }
+    destruct rhe; try exact G.
+    apply update_mentions_b_spec.
   - unfold constraint_mentions; simpl.
-    pose proof (existsb_reads_mentions ds l v acc) as HL.
-    pose proof (existsb_reads_mentions ds r v acc) as HR.
-    unfold all_reads in HL, HR. rewrite existsb_app_true in HL, HR.
-    destruct (expr_uses_spec ds l) as [_ Bl]. rewrite Bl.
-    norm_existsb. tauto.
+    assert (G : existsb (use_matches v acc) (u_sigread (expr_uses ds l) ++ u_compread (expr_uses ds l))
+                || any_read ds v acc r
+                || existsb (use_matches v acc) (u_compwritten (expr_uses ds l)) = true
+                <-> expr_mentions ds l v acc \/ expr_mentions ds r v acc).
+    { pose proof (existsb_reads_mentions ds l v acc) as HL. unfold all_reads in HL.
+      destruct (expr_uses_spec ds l) as [_ Bl]. rewrite Bl.
+      rewrite !orb_true_iff, any_read_mentions, HL. simpl. intuition discriminate. }
+    destruct r; try exact G.
+    apply update_mentions_b_spec.
 Qed.
 
 (* ------------------------------------------------------------------ *)
